@@ -313,6 +313,8 @@ instance : Render Bool := ⟨fun b => if b then "true" else "false"⟩
 instance : Render Unit := ⟨fun _ => "()"⟩
 instance {α β : Type} [Render α] [Render β] : Render (α × β) :=
   ⟨fun p => "(" ++ Render.render p.1 ++ "," ++ Render.render p.2 ++ ")"⟩
+instance {α : Type} [Render α] : Render (Option α) :=
+  ⟨fun o => match o with | none => "None" | some v => Render.render v⟩
 instance {α : Type} [Render α] : Render (List α) :=
   ⟨fun l => "[" ++ ",".intercalate (l.map Render.render) ++ "]"⟩
 
